@@ -3,6 +3,7 @@ import ZkElGamal.Driver.Sigma
 import ZkElGamal.Driver.Enc
 import ZkElGamal.Driver.Range
 import ZkElGamal.Driver.Ae
+import ZkElGamal.Driver.Kdf
 /-!
 `zkmodel` — the executable model. One op per line on stdin (`<id> <op> <args…>`),
 one result per line on stdout (`<id> <outcome>`); the same lines are run by the
@@ -43,6 +44,7 @@ def execOp (g : Unit → List CPt × List CPt) (op : String) (args : List String
   | "tojson" => opToJson args
   | "elg" => opElg args
   | "ae" => opAe args
+  | "kdf" => opKdf args
   | _ => "bad-op"
 
 partial def loop (h : IO.FS.Stream) (out : IO.FS.Stream) (cache : IO.Ref (Option (List CPt × List CPt))) : IO Unit := do
